@@ -7,7 +7,7 @@
    arbitrary world type [W] with an arbitrary provider oracle [ask : W -> provider -> height ->
    answer * W] (providers may answer anything, adaptively, differently each time), and an
    arbitrary arrival order [rank] of the concurrent witness answers.  The model is of the code
-   with the two repairs F2 and F23 (see C09/Model.v); the examples at the end show that both
+   with the three repairs F2, F23 and F50 (see C09/Model.v); the examples at the end show that the
    statements fail for the unrepaired variants.
 
    step_ok P t u now — the clause list of the property for one step from trusted block t to u:
@@ -25,7 +25,7 @@
      the first trusted height are admitted by hash-linking (back_ok) only: no signature is
      checked on that path; "later in height" of the informal statement does not apply to them. *)
 From Coq Require Import List ZArith NArith Bool Permutation.
-From TM Require Import Generated.Consts C07.Model C07.Proofs C09.Model C09.Proofs C09.ProofsStore.
+From TM Require Import Generated.Consts C07.Model C07.Proofs C09.Model C09.Proofs C09.ProofsStore C09.ProofsProv.
 Import ListNotations.
 Open Scope Z_scope.
 
@@ -124,6 +124,77 @@ Theorem C09_confirmation_requires_match :
                     lb_hash sig hash b = lb_hash sig hash target.
 Proof. exact confirmation_requires_match. Qed.
 Print Assumptions C09_confirmation_requires_match.
+
+(* The provider lists (repaired findNewPrimary, F50).  After NewClient with pairwise different
+   providers and ANY sequence of calls (primary replacements with and without removal, witness
+   removals by the detector, in any arrival order), the primary is not one of the witnesses and no
+   provider holds two witness slots ... *)
+Theorem C09_providers_stay_distinct :
+  forall (sig : Type) (sv : key -> signmsg -> sig -> bool) (hash : header -> Z)
+         (vhash : list validator -> Z) (bid_hash : blockid -> Z)
+         (W : Type) (ask : W -> pid -> Z -> preply sig * W) (rank : pid -> Z)
+         (P : params) (prim : pid) (ws : list pid) (s0 : st sig W) (th root : Z)
+         (c0 : client sig) (s1 : st sig W) (ops : list op) (c : client sig) (s : st sig W),
+    NoDup (prim :: ws) ->
+    initialize sig sv hash vhash bid_hash W ask rank P prim ws s0 th root = (None, c0, s1) ->
+    run_final sig sv hash vhash bid_hash W ask rank P c0 s1 ops = (c, s) ->
+    NoDup (cl_primary sig c :: cl_witnesses sig c).
+Proof.
+  intros sig sv hash vhash bid_hash W ask rank P.
+  exact (providers_distinct sig sv hash vhash bid_hash W ask rank P).
+Qed.
+Print Assumptions C09_providers_stay_distinct.
+
+(* ... the same holds for every intermediate client inside a call (each function that changes the
+   provider lists keeps them pairwise different) ... *)
+Theorem C09_providers_stay_distinct_inside_a_call :
+  forall (sig : Type) (sv : key -> signmsg -> sig -> bool) (hash : header -> Z)
+         (vhash : list validator -> Z) (bid_hash : blockid -> Z)
+         (W : Type) (ask : W -> pid -> Z -> preply sig * W) (rank : pid -> Z)
+         (P : params) (c : client sig),
+    NoDup (cl_primary sig c :: cl_witnesses sig c) ->
+    (forall s h remove r c' s',
+       find_new_primary sig W ask rank c s h remove = (r, c', s') ->
+       NoDup (cl_primary sig c' :: cl_witnesses sig c')) /\
+    (forall s h r c' s',
+       light_block_from_primary sig W ask rank c s h = (r, c', s') ->
+       NoDup (cl_primary sig c' :: cl_witnesses sig c')) /\
+    (forall s trace now r c' s',
+       detect_divergence sig sv hash vhash bid_hash W ask rank P c s trace now = (r, c', s') ->
+       NoDup (cl_primary sig c' :: cl_witnesses sig c')) /\
+    (forall s o r c' s',
+       step sig sv hash vhash bid_hash W ask rank P c s o = (r, c', s') ->
+       NoDup (cl_primary sig c' :: cl_witnesses sig c')).
+Proof.
+  intros sig sv hash vhash bid_hash W ask rank P.
+  exact (providers_distinct_inside sig sv hash vhash bid_hash W ask rank P).
+Qed.
+Print Assumptions C09_providers_stay_distinct_inside_a_call.
+
+(* ... and therefore the confirmation of C09_confirmation_requires_match comes from a provider
+   OTHER THAN THE PRIMARY: detectDivergence returns nil only if a witness different from the
+   primary answered, in this round, with a block of the verified header's hash.  A primary
+   vouching for its own header is no confirmation. *)
+Theorem C09_confirmation_by_other_provider :
+  forall (sig : Type) (sv : key -> signmsg -> sig -> bool) (hash : header -> Z)
+         (vhash : list validator -> Z) (bid_hash : blockid -> Z)
+         (W : Type) (ask : W -> pid -> Z -> preply sig * W) (rank : pid -> Z)
+         (P : params) (c : client sig) (s : st sig W) (t0 : lblock sig) (rest : list (lblock sig))
+         (now : Z) (c' : client sig) (s' : st sig W),
+    NoDup (cl_primary sig c :: cl_witnesses sig c) ->
+    detect_divergence sig sv hash vhash bid_hash W ask rank P c s (t0 :: rest) now = (None, c', s') ->
+    let target := last (t0 :: rest) t0 in
+    exists msgs s1 pre,
+      compare_all sig hash W ask s target (arrival_order rank (cl_witnesses sig c)) = (msgs, s1) /\
+      st_log sig W s1 = pre ++ st_log sig W s /\
+      exists w h b, In w (cl_witnesses sig c) /\ w <> cl_primary sig c /\
+                    In (w, h, P_block sig b) pre /\
+                    lb_hash sig hash b = lb_hash sig hash target.
+Proof.
+  intros sig sv hash vhash bid_hash W ask rank P.
+  exact (confirmation_by_other_provider sig sv hash vhash bid_hash W ask rank P).
+Qed.
+Print Assumptions C09_confirmation_by_other_provider.
 
 (* A witness goroutine sends nil only after this witness answered, in this comparison, with a
    block of the identical header hash: no response, "not found", a lagging witness, a context
@@ -378,4 +449,35 @@ Example C09_attack_nonvacuous :
            xrank xP c3 (s0 tt) 5 60 with
    | (e, c', _) => (e, map (lb_height isig) (cl_store isig c'), cl_witnesses isig c')
    end) = (Some X_crossref, [3], [3]).
+Proof. vm_compute. repeat split; reflexivity. Qed.
+
+(* ---- F50: why findNewPrimary must promote the respondent only after the removal ------------- *)
+
+(* primary 1, witnesses [2; 3]: witness 3 answered with an invalid block first (marked for removal),
+   then witness 2 with a block.  removeWitnesses([1; 0]) refuses to empty the list.  Unrepaired
+   loop: provider 2 has been made primary already and stays a witness.  Repaired loop: nothing
+   changes.  With the unrepaired provider lists and witness 3 silent, a verification of height 5
+   ends TRUSTED although provider 2 - the primary - is the only one that returned the header. *)
+Example C09_self_confirmation_refuted_unfixed :
+  let c3 := {| cl_primary := 1; cl_witnesses := [2; 3]; cl_store := [xblk 3]; cl_latest := Some (xblk 3) |} in
+  let resp := [(1%nat, P_err isig PE_bad); (0%nat, P_block isig (xblk 5))] in
+  let providers := fun rc : (lblock isig + cerr) * client isig =>
+                     (cl_primary isig (snd rc), cl_witnesses isig (snd rc)) in
+  let ask_silent3 := fun (w : unit) (p : pid) (h : Z) =>
+                       if p =? 3 then (P_err isig PE_no_response, w) else ask_honest w p h in
+  providers (fnp_loop_unfixed isig c3 true resp [] X_other) = (2, [2; 3]) /\
+  providers (fnp_loop isig c3 true resp [] X_other) = (1, [2; 3]) /\
+  fst (fnp_loop isig c3 true resp [] X_other) = inr X_no_witnesses /\
+  (let c' := snd (fnp_loop_unfixed isig c3 true resp [] X_other) in
+   match verify_at isig ideal_verify xhash xvhash xbid unit ask_silent3 xrank xP c' (s0 tt) 5 60 with
+   | (e, c'', s') => (e, map (lb_height isig) (cl_store isig c''),
+                      map (fun x => fst (fst x)) (filter (fun x => match snd x with P_block _ _ => true | _ => false end)
+                                                         (st_log isig unit s')))
+   end) = (None, [3; 5], [2; 2]) /\
+  (* with pairwise different providers the same situation is not trusted *)
+  (match verify_at isig ideal_verify xhash xvhash xbid unit ask_silent3 xrank xP
+                   {| cl_primary := 2; cl_witnesses := [3]; cl_store := [xblk 3]; cl_latest := Some (xblk 3) |}
+                   (s0 tt) 5 60 with
+   | (e, c'', _) => (e, map (lb_height isig) (cl_store isig c''))
+   end) = (Some X_crossref, [3]).
 Proof. vm_compute. repeat split; reflexivity. Qed.
